@@ -18,6 +18,16 @@ def _defs_of(body, local):
     return defs
 
 
+COMMUTATIVE = ('Add', 'AddWithOverflow', 'AddUnchecked', 'Mul', 'MulWithOverflow', 'MulUnchecked', 'Eq', 'Ne', 'BitAnd',
+               'BitOr', 'BitXor')
+
+
+def _operand_rank(s):
+    """Canonical order of the operands of a commutative operation: variables first, literals last."""
+    s = str(s)
+    return (1 if re.match(r'^-?\d+$', s) else 0, s)
+
+
 def _is_step_of(body, local, op, depth=0):
     """op is `(local checked+/- const).0` (possibly through temporaries)."""
     if op['k'] == 'const' or depth > 4:
@@ -32,8 +42,20 @@ def _is_step_of(body, local, op, depth=0):
         return _is_step_of(body, local, rv['op'], depth + 1)
     if rv['k'] == 'binop' and rv['op'] in ('AddWithOverflow', 'SubWithOverflow', 'Add', 'Sub', 'AddUnchecked', 'SubUnchecked'):
         a, b = rv['a'], rv['b']
-        return a['k'] != 'const' and not a['place']['proj'] and a['place']['local'] == local and b['k'] == 'const'
+        return _is_copy_of(body, a, local) and b['k'] == 'const'
     return False
+
+
+def _is_copy_of(body, op, local, depth=0):
+    """op reads `local`, directly or through single-definition temporaries (`x = x + 1` copies x first)."""
+    if op['k'] == 'const' or op['place']['proj'] or depth > 3:
+        return False
+    if op['place']['local'] == local:
+        return True
+    ds = _defs_of(body, op['place']['local'])
+    if len(ds) != 1 or 'rv' not in ds[0][1] or ds[0][1]['rv']['k'] != 'use':
+        return False
+    return _is_copy_of(body, ds[0][1]['rv']['op'], local, depth + 1)
 
 
 def local_origin(body, local, depth=0):
@@ -64,8 +86,10 @@ def _def_origin(body, d, depth):
         if rv['k'] == 'cast':
             return operand_origin(body, bi, rv['a'], depth + 1)
         if rv['k'] == 'binop':
-            return '%s(%s,%s)' % (rv['op'], operand_origin(body, bi, rv['a'], depth + 1),
-                                  operand_origin(body, bi, rv['b'], depth + 1))
+            ops = [operand_origin(body, bi, rv['a'], depth + 1), operand_origin(body, bi, rv['b'], depth + 1)]
+            if rv['op'] in COMMUTATIVE:
+                ops.sort(key=_operand_rank)      # `a + b` and `b + a` are the same site
+            return '%s(%s,%s)' % (rv['op'], ops[0], ops[1])
         if rv['k'] == 'ref':
             return operand_origin(body, bi, {'k': 'copy', 'place': rv['place']}, depth + 1)
         if rv['k'] == 'discr':
@@ -126,7 +150,10 @@ def panic_sites(facts, skip=lambda b: False):
                 continue
             t = bl['term']
             if t['k'] == 'assert':
-                desc = '%s:%s' % (t['kind'], ','.join(operand_origin(b, bi, o) for o in t['ops']))
+                ops = [operand_origin(b, bi, o) for o in t['ops']]
+                if t['kind'] in ('Overflow(Add)', 'Overflow(Mul)'):
+                    ops.sort(key=_operand_rank)
+                desc = '%s:%s' % (t['kind'], ','.join(ops))
                 if t['kind'] in ('DivisionByZero', 'RemainderByZero'):
                     # the message operand is the dividend; what matters is the divisor: `cond = Eq(divisor, 0)`
                     c = t.get('cond')
